@@ -28,4 +28,4 @@ valid = solverplan.valid_solver_plan
 LEVEL_TEXT = ("seeded search over API histories (Set*/Step/Solve/Finalize incl. mid-run reconfiguration and stop/resume) "
               "with a CounterModel reference checked after every operation and at every iteration boundary; sampling, not proof")
 LEVEL_NOTE = ("trusts the scripted peers' call log as ground truth for 'real cost calls'; a clean batch is evidence, not proof; "
-              "Powell's re-finalize bookkeeping and DE2's inf-cost counting are listed known findings")
+              "Powell's re-finalize bookkeeping is a listed known finding")
